@@ -26,7 +26,7 @@ any_types = st.one_of(
 _text_alphabet = st.characters(exclude_characters=LINE_TERMINATORS, exclude_categories=("Cs",))
 
 DELIM_PAYLOADS = ("lat;lon;alt", ";", "a;;b", ";x", "55.7;12.5;3", "x;", ";;", "1;2;3;4;5;6;7")
-PLAIN_PAYLOADS = ("", "0", "1", "57", "20.0", "-3", " leading", "a b", "åäö", "日本", "M", "2.2.0")
+PLAIN_PAYLOADS = ("", "0", "1", "57", "20.0", "-3", " leading", "a b", "åäö", "日本", "M", "2.2.0", "abc\x00", "\x00", "\x00x", "\ufeffbom", "x\ufeff", "\ttab", "²", "a\x7f")
 
 
 def _clean(text: str) -> str:
@@ -87,3 +87,19 @@ def weighted(*pairs):
         return draw(strategies[draw(st.sampled_from(table))])
 
     return pick()
+
+
+def _set_ack(pair):
+    line, flag = pair
+    if not flag:
+        return line
+    parts = line.split(";", 5)
+    if len(parts) == 6 and parts[3] == "0":
+        parts[3] = "1"
+        return ";".join(parts)
+    return line
+
+
+def with_ack(lines):
+    """Received lines with the ack flag set now and then (handlers must not care)."""
+    return st.tuples(lines, st.sampled_from((0, 0, 0, 1))).map(_set_ack)
